@@ -63,6 +63,12 @@ def decl_src(kind, pub, n, body_size):
         return "%sfn f%d(x: i32, y: []u8) -> i32\n{\n%s\tif x == %d\n\t{\n\t\tgoto return;\n\t}\n\treturn: x\n}\n" % (p, n, stmts, n)
     if kind == "head":
         return "%sextern fn h%d(a: &i32, b: usize) -> u8;\n" % (p, n)
+    if kind == "externfn":
+        # an extern function WITH a body (a function of this module for C callers): its body is private like any other
+        stmts = "".join("\tvar w%d_%d: i32 = %d + x;\n" % (n, j, j) for j in range(body_size))
+        return "%sextern fn e%d(x: i32) -> i32\n{\n%s\tloop%d:\n\tvar r: i32 = x;\n\treturn: r\n}\n" % (p, n, stmts, n)
+    if kind == "plainhead":
+        return "%sfn g%d(a: i32);\n" % (p, n)
     if kind == "const":
         return "%sconst K%d: [2]i32 = [%d, 2 * (3 + %d)];\n" % (p, n, n, n)
     if kind == "struct":
@@ -85,7 +91,7 @@ def header_source(decls):
         if not pub:
             continue
         src = decl_src(kind, False, n, bs)
-        if kind == "fn":
+        if kind in ("fn", "externfn"):
             src = src[:src.index("\n{")] + ";\n"
         out.append(src)
     return "".join(out)
@@ -98,7 +104,7 @@ def main():
     rng = SplitMix64(rep.seed).fork("C17")
     thorough = rep.tier == "thorough"
     dist = collections.Counter()
-    kinds = ["fn", "head", "const", "struct", "word", "opaque", "constcast", "import"]
+    kinds = ["fn", "head", "const", "struct", "word", "opaque", "constcast", "import", "externfn", "plainhead"]
     options = [(k, p) for k in kinds for p in (True, False)]
     modules = []
     for n in range(1, (5 if thorough else 4) + 1):
@@ -117,6 +123,9 @@ def main():
     hsrcs = [header_source(m) for m in modules]
     h = run_harness(["delta\tdump\t" + esc(s.encode()) for s in srcs])
     hh = run_harness(["delta\txml\t" + esc(s.encode()) for s in hsrcs])
+    # the node array of the restricted module itself: the header must hold the same nodes, one for one (nothing else may be
+    # carried along, whether a dump shows it or not)
+    hd_ = run_harness(["delta\tdump\t" + esc(s.encode()) for s in hsrcs])
     mreq = []
     parsed = []
     for a in h:
@@ -131,7 +140,9 @@ def main():
         mreq.append("header\t(" + " ".join(abstract(x) for x in tree) + ")")
     mm = run_model(mreq)
     agreeing = 0
-    for mod, src, hsrc, a, ha, pr, ma in zip(modules, srcs, hsrcs, h, hh, parsed, mm):
+    def shapes(nodes):
+        return [re.sub(r"\d+", "N", x) for x in nodes]
+    for mod, src, hsrc, a, ha, pr, ma, hda in zip(modules, srcs, hsrcs, h, hh, parsed, mm, hd_):
         npub = sum(1 for (k, p, n, bs) in mod if p)
         dist["%d decls/%d pub" % (len(mod), npub)] += 1
         problems = []
@@ -141,6 +152,15 @@ def main():
             d, tree, hdr = pr
             if ma != " ".join(hdr):
                 problems.append("header node array differs from the Lean model's buildHeader of the same node array")
+            rh, rd = kv(hda)
+            if hsrc != "" and rh == "ok" and "tree" in rd:
+                # (in the restricted module every declaration is private: its zone markers are not part of the comparison)
+                rtree = [y for y in (abstract(x) for x in split_nodes(bytes.fromhex(rd["tree"][2:]).decode()))
+                         if not y.startswith(("(start ", "(end ", "(endless)"))]
+                if shapes(rtree) != shapes(hdr):
+                    extra = [x for x in shapes(hdr) if x not in set(shapes(rtree))]
+                    problems.append("the header holds %d nodes, the module restricted to its public declarations parses to %d; node kinds "
+                                    "only the header has: %s" % (len(hdr), len(rtree), sorted(set(extra))[:6]))
             if int(d.get("hdecls", -1)) != npub:
                 problems.append("header has %s declarations, the module has %d public ones" % (d.get("hdecls"), npub))
             if d.get("malformed") != "0":
